@@ -39,6 +39,16 @@ func genC04(g *prng.R) c04Case {
 		for i := 0; i < n; i++ {
 			id := fmt.Sprintf("%s/notes/c%d", R1, i)
 			doc := note(id, M{"content": fmt.Sprintf("created %d", i)})
+			// every object has members the others lack, so that state kept
+			// from one object to the next shows in the stored value
+			switch (i + g.Intn(3)) % 3 {
+			case 0:
+				doc["summary"] = fmt.Sprintf("summary only on object %d", i)
+			case 1:
+				doc["name"] = fmt.Sprintf("name only on object %d", i)
+				doc["inReplyTo"] = R2 + "/notes/elsewhere"
+			}
+			doc[fmt.Sprintf("x-only-%d", i)] = i
 			if g.Bool() {
 				objs = append(objs, doc)
 			} else {
